@@ -142,6 +142,8 @@ def mask_addr(text):
 
 def jsonable(obj, _depth=0):
     """Best-effort conversion to JSON-able data (never raises)."""
+    if isinstance(obj, int) and not isinstance(obj, bool) and obj.bit_length() > 12000:
+        return 'int:' + hex(obj)        # beyond the 4 300-digit limit of decimal int <-> str conversion
     if obj is None or isinstance(obj, (bool, int, float, str)):
         return obj
     if _depth > 6:
@@ -167,3 +169,14 @@ def jsonable(obj, _depth=0):
 
 def dumps(obj):
     return json.dumps(jsonable(obj), ensure_ascii=False, sort_keys=True)
+
+
+def revive_ints(obj):
+    """Inverse of the 'int:0x...' encoding of very large ints in ``jsonable`` (replay files)."""
+    if isinstance(obj, str) and obj.startswith('int:0x'):
+        return int(obj[4:], 16)
+    if isinstance(obj, list):
+        return [revive_ints(v) for v in obj]
+    if isinstance(obj, dict):
+        return {k: revive_ints(v) for k, v in obj.items()}
+    return obj
